@@ -15,6 +15,9 @@ package ucon
 //   * success implies the counted weight reaches the quorum of the threshold, and (BLS) the aggregate signature verified.
 // verifyConsensusFieldMain: success implies the proposer credential verified and the precommit votes verified for this
 // header's hash; the committee sizes passed down must be the protocol's (cp.*), not the header's.
+// OverThreshold is verified exactly (the quorum as a term over the engine's float symbols); the look-back chain
+// (GetLookBackBlockNumber, getLookBackHeader, getLookBackValReader, verifyConsensusField) says WHICH block's seed / validator set
+// is used; verifyHeader / verifyCascadingFields / VerifySeal / VerifySideChainHeader carry thin call-site contracts (end of file).
 
 //@ ghost var c01Counted: set[common.Address]
 //@ ghost var c01Weight: int
@@ -32,11 +35,18 @@ package ucon
 //@ effectfree (github.com/youchainhq/go-youchain/core/state.ValidatorReader).GetValidatorsStat (github.com/youchainhq/go-youchain/core/state.ValidatorReader).GetValidators
 //@ effectfree (github.com/youchainhq/go-youchain/core/state.ValidatorReader).GetValidatorByMainAddr
 
-//@ spec func c01Quorum(threshold: int, isPos: bool) int
+// The quorum: "at least the quorum fraction of the committee size". Floats are uninterpreted in the engine, so nothing numeric is
+// claimed; what is pinned is WHICH computation yields the number of seats required: the committee size converted to float64,
+// multiplied by the protocol's fraction (0.685 of the committee for precommits and every other vote, 0.585 for certificates),
+// converted to uint32 — i2f / fmul / f2i are the engine's names for exactly these float64 operations of the code. Any other
+// expression (a subtracted seat, another rounding, another fraction) is a different term and fails; verifyVotes' quorum clause
+// is stated through the same function, so the helper and the verifier cannot drift apart.
+//@ spec func c01Fraction(isPos: bool) float64 = if isPos then f64(137, 200) else f64(117, 200)
+//@ spec func c01Quorum(threshold: int, isPos: bool) int = f2i(fmul(i2f(threshold), c01Fraction(isPos)), uint32)
 //@ func OverThreshold props C01
-//@ nobody
-//@ pure
-//@ ensures result == (count >= c01Quorum(threshold, isPos))
+//@ panics none
+//@ modifies nothing
+//@ ensures [reaches-quorum] result <==> count >= c01Quorum(threshold, isPos)
 
 //@ func VrfVerifySortition props C01
 //@ nobody
@@ -56,7 +66,7 @@ package ucon
 //@ func (*Server).verifyVotes props C01
 //@ opt abstract-slices
 //@ requires [nonnil] s != nil && cd != nil && cd.cp != nil
-//@ modifies all, c01Counted, c01Weight, c01SortOK, c01Signer, c01AggOK
+//@ modifies all, c01Counted, c01Weight, c01SortOK, c01Signer, c01AggOK, c01LbList
 //@ ghost at entry: c01Weight := 0
 //@ ghost at entry: c01Counted := emptyset(common.Address)
 //@ ghost at entry: c01AggOK := false
@@ -78,6 +88,14 @@ package ucon
 //@ ensures [quorum] result == nil ==> c01Weight >= c01Quorum(old(cd.validatorThreshold), isPos)
 //@ ensures [aggregate-verified] result == nil && old(cd.cp.EnableBls) ==> c01AggOK
 //@ assert before mapupdate: [entitled-voter] validator != nil && c01Entitled(validator)
+// every look-up (total stake, validator list, signer record) goes to the look-back validator set handed in, and the signer is
+// looked up in exactly the list read from it
+//@ ghost var c01LbList: int
+//@ assert before call (core/state.ValidatorReader).GetValidatorsStat: [stake-of-lookback-set] recv == cd.lbVld
+//@ assert before call (core/state.ValidatorReader).GetValidators: [list-of-lookback-set] recv == cd.lbVld
+//@ ghost after call (core/state.ValidatorReader).GetValidators: c01LbList := ret
+//@ assert before call (core/state.ValidatorReader).GetValidatorByMainAddr: [signer-of-lookback-set] recv == cd.lbVld
+//@ assert before call (*BlsVerifier).RecoverSignerInfo: [signer-looked-up-in-lookback-list] a1 == c01LbList
 
 // ---------------------------------------------------------------------------------------------------------
 //@ ghost var c01PrioOK: bool
@@ -99,8 +117,8 @@ package ucon
 
 //@ func (*Server).verifyConsensusFieldMain props C01
 //@ opt abstract-slices
-//@ requires [nonnil] s != nil && cp != nil && header != nil && header.Number != nil
-//@ modifies all, c01PrioOK, c01VotesOK, c01Counted, c01Weight, c01SortOK, c01Signer, c01AggOK
+//@ requires [nonnil] s != nil && header != nil && header.Number != nil
+//@ modifies all, c01PrioOK, c01VotesOK, c01Counted, c01Weight, c01SortOK, c01Signer, c01AggOK, c01LbList
 //@ ghost at entry: c01PrioOK := false
 //@ ghost at entry: c01VotesOK := false
 //@ assert before call VrfVerifyPriority: [proposer-credential-binds-header]
@@ -116,6 +134,188 @@ package ucon
 //@ ensures [accept-implies-proposer-verified] result == nil ==> c01PrioOK
 //@ ensures [accept-implies-precommit-quorum] result == nil ==> c01VotesOK
 //@ ghost var c01CertOK: bool
+// the seed is decoded from the look-back seed header handed in, the credential / votes from the header under verification, and
+// the proposer's record and the chamber's total stake are read from the look-back validator set handed in
+//@ assert before call GetConsensusDataFromHeader#1: [seed-of-lookback-header] a0 == seedHeader
+//@ assert before call GetConsensusDataFromHeader#2: [credential-of-this-header] a0 == header
+//@ assert before call GetConsensusDataFromHeader#3: [certificate-seed-of-lookback-header] a0 == certHeader
+//@ assert before call ExtractUconValidators#1: [votes-of-this-header] a0 == header && a1 == params.LookBackPos
+//@ assert before call ExtractUconValidators#2: [certificates-of-this-header] a0 == header && a1 == params.LookBackCert
+//@ assert before call (core/state.ValidatorReader).GetValidatorByMainAddr: [proposer-of-lookback-set] recv == vldReader
+//@ assert before call (core/state.ValidatorReader).GetValidatorsStat: [stake-of-lookback-set] recv == vldReader
 //@ assert before call (*Server).verifyVotes#2: [certificates-for-this-header]
 //@        a1.lbVld == certVldReader && a1.seed == certCon.Seed && a2 == ucCertificates.ChamberCerts && a3 == ucCertificates.CCAggrSig &&
 //@        a4 == Certificate && a5 == params.KindChamber && !a6 && a1.validatorThreshold == certCon.CertValThreshold
+
+// ---------------------------------------------------------------------------------------------------------
+// Which block the look-back data comes from ("the look-back validator set" of the statement): for a header of number N under
+// the protocol parameters cp in force, the sortition seed is the one of block N - cp.SeedLookBack and the validator set the
+// one of block N - cp.StakeLookBack (block 0 while N is not larger than the distance); in certificate rounds the certificate
+// seed / validator set are those of N - ACoCHTFrequency / N - 2*ACoCHTFrequency.
+
+//@ spec func c01Back(n: int, d: int) int = if n > d then n - d else 0
+// distance selected by a look-back type: exactly what the protocol defines (Pos is the seed distance, Cert the certificate seed distance)
+//@ spec func c01Dist(stakeLB: int, seedLB: int, lb: int) int =
+//@     if lb == params.LookBackStake then wrapint(stakeLB)
+//@     else if lb == params.LookBackSeed || lb == params.LookBackPos then wrapint(seedLB)
+//@     else if lb == params.LookBackCertStake then 2 * params.ACoCHTFrequency
+//@     else params.ACoCHTFrequency
+// (the two configured distances are passed as numbers: the engine binds a `cp` that is the address of an in-line struct to the
+// struct VALUE in a callee's contract, so a spec function cannot take the pointer — engine_requests/C01.md #5)
+//@ spec func c01LookBackNum(stakeLB: int, seedLB: int, n: int, lb: int) int = c01Back(n, c01Dist(stakeLB, seedLB, lb))
+
+//@ func (github.com/youchainhq/go-youchain/consensus.ChainReader).VersionForRound props C01
+//@ trusted
+//@ pure
+
+//@ func (*Server).GetLookBackBlockNumber props C01
+// ENGINE WORK-AROUND (engine_requests/C01.md #2): `cp` after the nil check is a phi of the parameter and of &yp.CaravelParams (the
+// address of an in-line struct); the engine havocs such a phi. The assumption restates what the phi is on the edges that
+// come from the parameter (cp != nil at entry: the re-assignment is not executed).
+//@ assume after call math/big.NewInt#1: [phi-cp-is-parameter] old(cp) != nil ==> cp == old(cp)
+//@ requires [nonnil] s != nil && num != nil && params.LookBackPos <= lbType && lbType <= params.LookBackCertStake
+//@ modifies nothing
+//@ ensures [lookback-number] cp != nil || lbType >= params.LookBackCert ==>
+//@         result != nil && fresh(result) && big(result) == c01LookBackNum(cp.StakeLookBack, cp.SeedLookBack, big(num), lbType)
+//@ ensures [input-unchanged] big(num) == old(big(num))
+
+// The chain's index by number returns a header OF that number (trusted: interface, implemented by core.BlockChain/HeaderChain),
+// and a validator reader opened for a root reads the validator trie of that root (c01VldRoot names the root a reader belongs to).
+//@ spec func c01VldRoot(r: int) common.Hash
+//@ func (github.com/youchainhq/go-youchain/consensus.ChainReader).GetHeaderByNumber props C01
+//@ trusted
+//@ pure
+//@ ensures result != nil ==> result.Number != nil && big(result.Number) == number
+//@ func (github.com/youchainhq/go-youchain/consensus.ChainReader).GetVldReader props C01
+//@ trusted
+//@ pure
+//@ ensures result1 == nil ==> c01VldRoot(result0) == valRoot
+
+// parents (when given) are the contiguous run of ancestors ending at the parent: parents[i] is block N - len(parents) + i.
+// (`allocated`: the numbers are existing objects — a well-formedness fact of any reachable reference the engine does not derive
+// for a field read through a phi of two headers, engine_requests/C01.md #3.)
+//@ spec func c01Ancestors(parents: Slice, n: int) bool =
+//@     forall i: int :: 0 <= i && i < len(parents) ==> parents[i] != nil && parents[i].Number != nil && allocated(parents[i].Number) && big(parents[i].Number) == n - len(parents) + i
+
+//@ func (*Server).getLookBackHeader props C01
+//@ requires [nonnil] s != nil && currNum != nil && params.LookBackPos <= lbtype && lbtype <= params.LookBackCertStake
+// ENGINE WORK-AROUND (engine_requests/C01.md #5): this is a precondition (`requires [nonnil] lbtype < params.LookBackCert ==> cp != nil`); the engine
+// cannot evaluate `cp != nil` at verifyConsensusField's call sites, whose actual argument is &yp.CaravelParams (address of an in-line struct, never nil).
+//@ assume [cp-given-for-protocol-lookbacks] lbtype < params.LookBackCert ==> cp != nil
+//@ requires [number-range] 0 <= big(currNum) && big(currNum) < 2^63
+//@ requires [parents-contiguous] c01Ancestors(parents, big(currNum))
+//@ modifies nothing
+//@ ensures [header-of-lookback-block] result1 == nil ==> result0 != nil && result0.Number != nil && big(result0.Number) == c01LookBackNum(cp.StakeLookBack, cp.SeedLookBack, old(big(currNum)), lbtype)
+//@ ensures [error-without-header] result1 != nil ==> result0 == nil
+
+// The validator reader handed out for (N, look-back type) is the one opened for the validator root recorded in the header of
+// the look-back block of that type: c01VldHeader names that header.
+//@ ghost var c01VldHeader: *types.Header
+//@ func (*Server).getLookBackValReader props C01
+//@ requires [nonnil] s != nil && currNum != nil && params.LookBackPos <= lbtype && lbtype <= params.LookBackCertStake
+// ENGINE WORK-AROUND (engine_requests/C01.md #5): this is a precondition (`requires [nonnil] lbtype < params.LookBackCert ==> cp != nil`); the engine
+// cannot evaluate `cp != nil` at verifyConsensusField's call sites, whose actual argument is &yp.CaravelParams (address of an in-line struct, never nil).
+//@ assume [cp-given-for-protocol-lookbacks] lbtype < params.LookBackCert ==> cp != nil
+//@ requires [number-range] 0 <= big(currNum) && big(currNum) < 2^63
+//@ requires [parents-contiguous] c01Ancestors(parents, big(currNum))
+//@ modifies c01VldHeader
+//@ ghost after call (*Server).getLookBackHeader: c01VldHeader := ret0
+//@ ensures [reader-of-lookback-block] result1 == nil ==> c01VldHeader != nil && c01VldHeader.Number != nil &&
+//@         big(c01VldHeader.Number) == c01LookBackNum(cp.StakeLookBack, cp.SeedLookBack, old(big(currNum)), lbtype) && c01VldRoot(result0) == c01VldHeader.ValRoot
+
+// verifyConsensusField: what is handed to the verifier proper. From the statement: the votes are checked against THE look-back
+// validator set — the set recorded N - StakeLookBack blocks back under the parameters of the protocol version in force (yp) —
+// and all credentials against the seed recorded N - SeedLookBack blocks back; whatever look-back type constants the code uses.
+//@ ghost var c01StakeHeader: *types.Header
+//@ ghost var c01CertStakeHeader: *types.Header
+//@ ghost var c01MainOK: bool
+//@ func (*Server).verifyConsensusField props C01
+//@ requires [nonnil] s != nil && header != nil && header.Number != nil && yp != nil
+//@ requires [number-range] 0 <= big(header.Number) && big(header.Number) < 2^63
+//@ requires [parents-contiguous] c01Ancestors(parents, big(header.Number))
+//@ let N = big(header.Number)
+//@ modifies all, c01VldHeader, c01StakeHeader, c01CertStakeHeader, c01MainOK, c01PrioOK, c01VotesOK, c01Counted, c01Weight, c01SortOK, c01Signer, c01AggOK, c01LbList
+//@ ghost at entry: c01MainOK := false
+//@ ghost after call (*Server).getLookBackValReader#1: c01StakeHeader := c01VldHeader
+//@ ghost after call (*Server).getLookBackValReader#2: c01CertStakeHeader := c01VldHeader
+//@ assert before call (*Server).verifyConsensusFieldMain: [protocol-params-in-force]
+//@        a1.ValidatorThreshold == yp.CaravelParams.ValidatorThreshold && a1.ProposerThreshold == yp.CaravelParams.ProposerThreshold &&
+//@        a1.CertValThreshold == yp.CaravelParams.CertValThreshold && a1.EnableBls == yp.CaravelParams.EnableBls
+//@ assert before call (*Server).verifyConsensusFieldMain: [seed-of-seed-lookback-block]
+//@        yp.CaravelParams.SeedLookBack < 2^63 ==> a2 != nil && a2.Number != nil && big(a2.Number) == c01Back(N, yp.CaravelParams.SeedLookBack)
+//@ assert before call (*Server).verifyConsensusFieldMain: [validators-of-stake-lookback-block]
+//@        yp.CaravelParams.StakeLookBack < 2^63 ==> c01StakeHeader != nil && c01StakeHeader.Number != nil &&
+//@        big(c01StakeHeader.Number) == c01Back(N, yp.CaravelParams.StakeLookBack) && c01VldRoot(a3) == c01StakeHeader.ValRoot
+//@ assert before call (*Server).verifyConsensusFieldMain: [certificate-lookback-blocks]
+//@        N > 0 && N % params.ACoCHTFrequency == 0 ==> a4 != nil && a4.Number != nil && big(a4.Number) == c01Back(N, params.ACoCHTFrequency) &&
+//@        c01CertStakeHeader != nil && c01CertStakeHeader.Number != nil && big(c01CertStakeHeader.Number) == c01Back(N, 2 * params.ACoCHTFrequency) &&
+//@        c01VldRoot(a5) == c01CertStakeHeader.ValRoot
+//@ assert before call (*Server).verifyConsensusFieldMain: [this-header] a6 == header && big(header.Number) == N
+//@ ghost after call (*Server).verifyConsensusFieldMain: c01MainOK := ret == nil
+//@ ensures [accept-implies-verified] result == nil ==> c01MainOK
+
+// ---------------------------------------------------------------------------------------------------------
+// The callers: VerifyHeader(s) -> verifyHeader -> verifyCascadingFields -> verifyConsensusField, and VerifySeal. What they owe the
+// verifier proper: the protocol parameters are those of the version IN FORCE for this header's round (asked from the chain for
+// exactly this number and these parents — never another round's), the header and the parents batch are passed on unchanged, and a
+// sealed non-genesis header is accepted only if verifyConsensusField accepted it.
+//@ ghost var c01YP: *params.YouParams
+//@ ghost var c01FieldOK: bool
+//@ ghost var c01CascOK: bool
+
+//@ func (github.com/youchainhq/go-youchain/consensus.ChainReader).GetHeader props C01
+//@ trusted
+//@ pure
+//@ func (github.com/youchainhq/go-youchain/consensus.ChainReader).VersionForRoundWithParents props C01
+//@ trusted
+//@ pure
+//@ effectfree github.com/youchainhq/go-youchain/crypto.SigToPub github.com/youchainhq/go-youchain/consensus/ucon.ExtractConsensusData
+//@ effectfree time.Now (time.Time).Add (time.Time).Unix (time.Time).Sub
+
+//@ func (*Server).verifySignature props C01
+//@ modifies nothing
+
+//@ func (*Server).verifyCascadingFields props C01
+//@ requires [nonnil] s != nil && header != nil && header.Number != nil && yp != nil
+//@ requires [number-range] 0 <= big(header.Number) && big(header.Number) < 2^63
+//@ requires [parents-contiguous] c01Ancestors(parents, big(header.Number))
+//@ modifies all, c01FieldOK, c01VldHeader, c01StakeHeader, c01CertStakeHeader, c01MainOK, c01PrioOK, c01VotesOK, c01Counted, c01Weight, c01SortOK, c01Signer, c01AggOK, c01LbList
+//@ ghost at entry: c01FieldOK := false
+//@ assert before call (*Server).verifyConsensusField: [same-header-parents-version] a1 == chain && a2 == header && a3 == parents && a4 == yp
+//@ ghost after call (*Server).verifyConsensusField: c01FieldOK := ret == nil
+//@ ensures [sealed-non-genesis-accept-implies-consensus-verified] result == nil && seal && old(big(header.Number)) != 0 ==> c01FieldOK
+
+//@ func (*Server).verifyHeader props C01
+//@ requires [nonnil] s != nil && header != nil
+//@ requires [number-range] header.Number != nil ==> 0 <= big(header.Number) && big(header.Number) < 2^63
+//@ requires [parents-contiguous] header.Number != nil ==> c01Ancestors(parents, big(header.Number))
+//@ modifies all, c01YP, c01CascOK, c01FieldOK, c01VldHeader, c01StakeHeader, c01CertStakeHeader, c01MainOK, c01PrioOK, c01VotesOK, c01Counted, c01Weight, c01SortOK, c01Signer, c01AggOK, c01LbList
+//@ ghost at entry: c01CascOK := false
+//@ assert before call (consensus.ChainReader).VersionForRoundWithParents: [version-in-force-for-this-round] recv == chain && a0 == big(header.Number) && a1 == parents
+//@ ghost after call (consensus.ChainReader).VersionForRoundWithParents: c01YP := ret0
+//@ assert before call (*Server).verifyCascadingFields: [same-header-version-in-force] a1 == chain && a2 == header && a3 == parents && a4 == seal && a5 == c01YP
+//@ ghost after call (*Server).verifyCascadingFields: c01CascOK := ret == nil
+//@ ensures [accept-implies-cascading-verified] result == nil ==> c01CascOK
+
+//@ func (*Server).VerifySeal props C01
+//@ requires [nonnil] s != nil && header != nil && header.Number != nil
+//@ requires [number-range] 0 <= big(header.Number) && big(header.Number) < 2^63
+//@ modifies all, c01YP, c01FieldOK, c01VldHeader, c01StakeHeader, c01CertStakeHeader, c01MainOK, c01PrioOK, c01VotesOK, c01Counted, c01Weight, c01SortOK, c01Signer, c01AggOK, c01LbList
+//@ ghost at entry: c01FieldOK := false
+//@ assert before call (consensus.ChainReader).VersionForRoundWithParents: [version-in-force-for-this-round] recv == chain && a0 == big(header.Number) && len(a1) == 0
+//@ ghost after call (consensus.ChainReader).VersionForRoundWithParents: c01YP := ret0
+//@ assert before call (*Server).verifyConsensusField: [same-header-version-in-force] a1 == chain && a2 == header && len(a3) == 0 && a4 == c01YP
+//@ ghost after call (*Server).verifyConsensusField: c01FieldOK := ret == nil
+//@ ensures [accept-implies-consensus-verified] result == nil ==> c01FieldOK
+
+// Side-chain entry point: the look-back data is supplied by the caller (core's side-chain import computes it along the side
+// chain's own ancestry — outside C01's contracts); it is handed to the verifier proper unchanged and acceptance implies that the
+// verifier proper accepted.
+//@ func (*Server).VerifySideChainHeader props C01
+//@ requires [nonnil] s != nil && block != nil
+//@ modifies all, c01MainOK, c01PrioOK, c01VotesOK, c01Counted, c01Weight, c01SortOK, c01Signer, c01AggOK, c01LbList
+//@ ghost at entry: c01MainOK := false
+//@ assert before call (*Server).verifyConsensusFieldMain: [look-back-data-passed-unchanged]
+//@        a1 == cp && a2 == seedHeader && a3 == vldReader && a4 == certHeader && a5 == certVldReader
+//@ ghost after call (*Server).verifyConsensusFieldMain: c01MainOK := ret == nil
+//@ ensures [accept-implies-verified] result == nil ==> c01MainOK
